@@ -325,6 +325,28 @@ fn run_suite<S: ShortGroupSignatureScheme + 'static>(em: &mut Emitter, base: &mu
                 }
             }
             judge(em, suite, "reported-value-edited", &scn, &q, "");
+            // every reported claim in turn replaced by a claim of another type with the *same* scalar (number ↔ the scalar
+            // of its encoding, text ↔ the scalar of its hash): the proof of knowledge cannot tell, only the type check can
+            let labels_now: Vec<String> = p.disclosed_messages.get(&sid).map(|m| m.keys().cloned().collect()).unwrap_or_default();
+            for l in labels_now {
+                let orig = p.disclosed_messages[&sid][&l].clone();
+                let sc = orig.to_scalar();
+                let mut alts: Vec<ClaimData> = vec![];
+                if !matches!(orig, ClaimData::Scalar(_)) {
+                    alts.push(ScalarClaim::from(sc).into());
+                }
+                if !matches!(orig, ClaimData::Number(_)) {
+                    let n = NumberClaim::from(sc);
+                    if n.to_scalar() == sc {
+                        alts.push(n.into());
+                    }
+                }
+                for alt in alts {
+                    let mut q = p.clone();
+                    q.disclosed_messages.get_mut(&sid).unwrap().insert(l.clone(), alt);
+                    judge(em, suite, "reported-claim-retyped-same-scalar", &scn, &q, &l);
+                }
+            }
             let mut q = p.clone();
             q.disclosed_messages.shift_remove(&sid);
             judge(em, suite, "reported-map-missing", &scn, &q, "");
@@ -403,7 +425,7 @@ fn multi_credential<S: ShortGroupSignatureScheme + 'static>(em: &mut Emitter, ba
 pub fn gen_c02(em: &mut Emitter, rng: &mut Rng) {
     em.rule = "deviating holders that own a valid credential: the real prover is driven with the verifier's transcript (challenge override) for a \
                statement that hides / adds a claim while the reported map says otherwise — substituted value (same / other claim type, with the \
-               proof's inner map untouched, padded with the false or the true scalar), withheld label, extra label, a requested label replaced by an unrequested one, swapped values; plus index-list \
+               proof's inner map untouched, padded with the false or the true scalar), withheld label, extra label, a requested label replaced by an unrequested one, swapped values, a reported claim re-typed with the same scalar; plus index-list \
                shapes (reversed, padded out of range, entry removed, value changed, hidden index added) and plain edits. oracle: accepted ⇒ reported \
                label set = requested ∩ schema labels and every reported claim = the signed claim. With 2-3 signature statements: \
                the reported maps re-filed (entries reordered, ids exchanged, maps exchanged, honest map parked under a foreign id, one map for all): \
